@@ -108,6 +108,7 @@ class PathCond:
                     atoms.append(t)
         # a flag variable `v = <boolean expression>` that is tested: its definition's leaves are tracked too, so that the
         # relation v == expression (see _post) connects the test of v with the tests the expression stands for
+        self.derived_flags: T.Set[str] = set()
         changed = True
         while changed:
             changed = False
@@ -120,12 +121,15 @@ class PathCond:
                     continue
                 if isinstance(a_.value, ast.UnaryOp) and not isinstance(a_.value.op, ast.Not):
                     continue
-                if isinstance(a_.value, ast.BoolOp) and not all(isinstance(v_, (ast.Compare, ast.BoolOp, ast.UnaryOp, ast.Name)) for v_ in a_.value.values):
+                if isinstance(a_.value, ast.BoolOp) and not all(isinstance(v_, (ast.Compare, ast.BoolOp, ast.UnaryOp, ast.Name, ast.Attribute)) for v_ in a_.value.values):
                     continue          # `x or default`: a value, not a condition
-                for leaf in expr_atoms(a_.value):
+                leaves_ = expr_atoms(a_.value)
+                for leaf in leaves_:
                     if leaf not in atoms and (only is None or only(leaf)):
                         atoms.append(leaf)
                         changed = True
+                if leaves_ and all(leaf in atoms for leaf in leaves_):
+                    self.derived_flags.add(tg_.id)
         for a in extra_atoms:
             if a not in atoms:
                 atoms.append(a)
@@ -463,7 +467,7 @@ class Interproc:
             nid = cfg.node_containing(call)
             if nid is None:
                 continue     # reference inside a nested function / default
-            here = self.pc(caller.fq).reach(nid)
+            here = self._without_flags(caller.fq, self.pc(caller.fq).reach(nid))
             c2 = self.rename_cond(cond, fn, caller, call)
             total = total | self.lift(caller, here & c2, root, _stack + (fn.fq,))
         return total
@@ -473,7 +477,15 @@ class Interproc:
         nid = cfg.node_containing(node)
         if nid is None:
             raise AnalysisError(f"site not found in CFG of {fn.fq}: {unparse(node)[:60]}")
-        return self.lift(fn, self.pc(fn.fq).reach(nid), root)
+        return self.lift(fn, self._without_flags(fn.fq, self.pc(fn.fq).reach(nid)), root)
+
+    def _without_flags(self, fq: str, cond: BF) -> BF:
+        """Flag locals that merely name a boolean expression whose leaves are tracked (`do_push = cfg.commit and cfg.push`)
+        are quantified away: the relation flag == expression is part of the condition, so nothing about the leaves is lost."""
+        for a in sorted(self.pc(fq).derived_flags):
+            if a in cond.atoms:
+                cond = cond.exists(a)
+        return cond
 
 
 def _local_names(fn: FunctionInfo) -> T.Set[str]:
